@@ -455,6 +455,22 @@ def array_iter_model(nm, args, bi, path):
     a hand-written loop)."""
     if re.search(r'IntoIterator for \[T; N\]>::into_iter$', nm) and args and args[0][0] == 'array':
         return ('arrayiter', args[0][1], bi)
+    # `for i in a..b` with constant bounds: the same, element k is a + k
+    if re.search(r'IntoIterator>::into_iter$', nm) and args and args[0][0] == 'agg' and args[0][1] == 'std::ops::Range' \
+            and all(args[0][3].get(f_, ('?',))[0] == 'const' for f_ in ('start', 'end')):
+        lo, hi = args[0][3]['start'][1], args[0][3]['end'][1]
+        ty = args[0][3]['start'][2] if len(args[0][3]['start']) > 2 else 'u32'
+        if isinstance(lo, int) and isinstance(hi, int) and 0 <= hi - lo <= 16:
+            return ('arrayiter', tuple(('const', x, ty) for x in range(lo, hi)), bi)
+    if re.search(r'^<std::ops::Range<T> as std::iter::Iterator>::next$|^std::iter::range::<impl std::iter::Iterator for std::ops::Range<.*>>::next$', nm) and args:
+        it = args[0]
+        while it[0] in ('ref', 'deref'):
+            it = it[1]
+        if it[0] == 'arrayiter':
+            k = sum(1 for nm2, a2, b2 in path.calls if nm2 == nm)
+            if k < len(it[1]):
+                return ('agg', 'std::option::Option', 'Some', {'0': it[1][k]})
+            return ('agg', 'std::option::Option', 'None', {})
     if re.search(r'^<std::array::IntoIter<T, N> as std::iter::Iterator>::next$', nm) and args:
         it = args[0]
         while it[0] in ('ref', 'deref'):
